@@ -95,10 +95,12 @@ Definition sort_z (l : list Z) : list Z := fold_right insert_z [] l.
 
 (** S(l): the instants whose wall clock reads l, ascending.  t = l - o for an offset o the zone
     uses, and the zone is at offset o at that instant. *)
-Definition instants_of_wall (z : szone) (l : Z) : list Z :=
+Definition instants_of_wall_among (offs : list Z) (z : szone) (l : Z) : list Z :=
   sort_z (dedup (flat_map (fun o => match zone_off z (l - o) with
                                     | Some o' => if o' =? o then [l - o] else []
-                                    | None => [] end) (zone_offsets z))).
+                                    | None => [] end) offs)).
+Definition instants_of_wall (z : szone) (l : Z) : list Z :=
+  instants_of_wall_among (zone_offsets z) z l.
 
 (** the wall-clock seconds about which the property makes no claim: the second that ends a skipped
     or repeated interval (T + max(before, after)) and the first second of a skipped interval
